@@ -23,6 +23,31 @@ CHECKS = {
               "the validity oracle. Bounds are stated in evidence (tlc_runs)."),
         design_ref="DESIGN.md sections 3.1, 5 (C10)",
     ),
+    "C12": dict(
+        category="model_checking",
+        technique="TLA+ models (Matcher.tla, Search.tla) enumerated exhaustively by TLC; every case replayed into core.match_template / pattern_matching.finditer+findall",
+        text=("Matcher.tla contains the declarative (regular-expression) reading of list patterns and an implementation-shaped "
+              "model of the greedy count-vector search; TLC checks ImplMatch => IdealMatch and completeness without an outer "
+              "repetition on the whole bounded space and writes both verdicts for every (template, node list) case; each case is "
+              "replayed with a hand-built template and a compiled {{..}} pattern. Search.tla enumerates sources with occurrences "
+              "in every container kind and the expected occurrence set is compared with finditer/findall. Bounded, exhaustive "
+              "within the stated bounds."),
+        note=("Trusted: TLC, the renderer of abstract cases to Python text. Known finding KF-C12-1 (greedy list matching) is "
+              "identified as the TLC-computed Gap set and the code answering exactly what the Impl model answers."),
+        design_ref="DESIGN.md sections 3.6, 5 (C12)",
+    ),
+    "C15": dict(
+        category="model_checking",
+        technique="TLA+ reference semantics of constant expressions (ConstEval.tla) enumerated by TLC, validated against CPython eval, replayed into core.literal_value; consumer programs traced through format_code",
+        text=("ConstEval.tla holds Python's value semantics for a bounded expression grammar (PyEval) and an implementation-shaped "
+              "model of literal_value (ImplEval); TLC checks NoWrongValue and ImplTotal on every expression and writes both "
+              "outcomes; each expression is evaluated by CPython (spec validation), by core.literal_value (value must agree, "
+              "raising/effectful expressions must be 'unknown', nothing may escape or be executed), and planted as a condition "
+              "in consumer programs whose observable behaviour must survive format_code and every consuming rule."),
+        note=("Trusted: TLC, CPython as the ground truth for the TLA+ semantics (checked on every case, exit 2 on disagreement), "
+              "the execution sandbox. Cases the TLA+ semantics marks out-of-model are decided by CPython directly."),
+        design_ref="DESIGN.md sections 3.7, 5 (C15)",
+    ),
 }
 
 NOT_YET = "not claimed yet: the check for this property is still under construction (DESIGN.md section 5 describes the planned TLA+ model and binding)"
